@@ -1,4 +1,4 @@
-use std::collections::{BTreeSet, HashMap, HashSet};
+use std::collections::{BTreeMap, BTreeSet, HashMap, HashSet};
 use std::rc::Rc;
 
 use crate::compiler::codegen::codegen;
@@ -96,7 +96,7 @@ pub fn deinline_opt(
     // until we reach a root.
     //
     // Remember the root this function belongs to.
-    let leaves: Vec<Vec<u8>> = depgraph
+    let mut leaves: Vec<Vec<u8>> = depgraph
         .leaves()
         .iter()
         .filter(|l| {
@@ -108,8 +108,9 @@ pub fn deinline_opt(
         })
         .cloned()
         .collect();
+    leaves.sort();
 
-    let mut roots: HashMap<Vec<u8>, BTreeSet<Vec<u8>>> = HashMap::new();
+    let mut roots: BTreeMap<Vec<u8>, BTreeSet<Vec<u8>>> = BTreeMap::new();
 
     // For each leaf, find roots.
     for l in leaves.iter() {
@@ -123,7 +124,7 @@ pub fn deinline_opt(
     }
 
     // Make a set of root sets to coalesce them.
-    let mut roots_set: HashSet<BTreeSet<Vec<u8>>> = HashSet::new();
+    let mut roots_set: BTreeSet<BTreeSet<Vec<u8>>> = BTreeSet::new();
     for (_, common_roots) in roots.iter() {
         roots_set.insert(common_roots.clone());
     }
@@ -132,7 +133,7 @@ pub fn deinline_opt(
     // with this collection to make a set of leaves reachable from each root set.
     // Each root set is a set of functions that will change representation when
     // inlining is changed so we have to handle each root set as a unit.
-    let mut root_set_to_leaf: HashMap<BTreeSet<Vec<u8>>, BTreeSet<Vec<u8>>> = roots_set
+    let mut root_set_to_leaf: BTreeMap<BTreeSet<Vec<u8>>, BTreeSet<Vec<u8>>> = roots_set
         .iter()
         .map(|root_set| (root_set.clone(), BTreeSet::new()))
         .collect();
@@ -166,7 +167,7 @@ pub fn deinline_opt(
 
     // Now collect the tree of synthetic functions rooted at any of the roots in
     // each root set.
-    let root_set_to_inline_tree: HashMap<BTreeSet<Vec<u8>>, HashSet<Vec<u8>>> = root_set_to_leaf
+    let root_set_to_inline_tree: BTreeMap<BTreeSet<Vec<u8>>, BTreeSet<Vec<u8>>> = root_set_to_leaf
         .iter()
         .map(|(root_set, leaves)| {
             let mut full_tree_set = HashSet::new();
@@ -178,7 +179,8 @@ pub fn deinline_opt(
             if full_tree_set.is_empty() {
                 full_tree_set = leaves.iter().cloned().collect();
             }
-            (root_set.clone(), full_tree_set)
+            let ordered: BTreeSet<Vec<u8>> = full_tree_set.into_iter().collect();
+            (root_set.clone(), ordered)
         })
         .collect();
 
